@@ -69,12 +69,15 @@ SimSibs == {LeafPool[j] : j \in 1..NLeaf} \cup {RootPool[j] : j \in 1..NRoot}
                    Bin("and", Lit("true"), Lit("false")), Pol("-", Lit("2")), Bin("&", Lit("'a'"), Lit("'b'"))}
 SibSeq == SetToSeq(SimSibs)
 OpSeq == SetToSeq(SimOps)
-(* one random wrapper of c: the form and its parameters are drawn independently *)
-Draw == [f  |-> RandomElement(1..10),
-         op |-> OpSeq[RandomElement(1..Len(OpSeq))],
-         s  |-> SibSeq[RandomElement(1..Len(SibSeq))],
-         u  |-> RandomElement(1..NUn),
-         n  |-> RandomElement(1..NArgCtx)]
+(* one random wrapper: the form and its parameters are drawn independently.  *)
+(* Draw takes the state's tree as a (useless) argument so that TLC does not *)
+(* evaluate it once as a constant.                                          *)
+Draw(c) == LET z == 0 * Depth(c)
+           IN [f  |-> RandomElement(1..(10 + z)),
+               op |-> OpSeq[RandomElement(1..(Len(OpSeq) + z))],
+               s  |-> SibSeq[RandomElement(1..(Len(SibSeq) + z))],
+               u  |-> RandomElement(1..(NUn + z)),
+               n  |-> RandomElement(1..(NArgCtx + z))]
 Build(c, d) ==
   CASE d.f \in {1, 2, 3} -> Bin(d.op, c, d.s)
     [] d.f \in {4, 5, 6} -> Bin(d.op, d.s, c)
@@ -86,7 +89,7 @@ Build(c, d) ==
 SimInit == t \in SimSibs /\ ph = "grow" /\ em = {}
 SimGrow ==
   /\ ph = "grow" /\ Depth(t) < MaxSimDepth
-  /\ \E draws \in {<<Draw, Draw, Draw, Draw, Draw, Draw>>} :      \* bound once: a LET would re-draw at every use
+  /\ \E draws \in {<<Draw(t), Draw(t), Draw(t), Draw(t), Draw(t), Draw(t)>>} :      \* bound once: a LET would re-draw at every use
        LET good == {x \in {Build(t, draws[j]) : j \in 1..6} : Expected(x).k # "na" /\ ~DividesByZero(x)}
        IN /\ good # {}
           /\ \E x \in {RandomElement(good)} : t' = x
